@@ -136,7 +136,7 @@ Definition check_rt (input output : J) : verdict :=
       match writer_of wz, reader_of rz, jbytes jname, dec_recs jrecs, shards_ok jshards with
       | Some w, Some r, Some name, Some recs, true =>
           match output with
-          | JL [JI osig; JB osame; jhs; jhp; jro] =>
+          | JL [_; JI osig; JB osame; jhs; jhp; jro] =>
               match jbytes jhs, jbytes jhp, dec_outc jro with
               | Some hs, Some hp, Some ro =>
                   (* --- model: run write / read with the toy codec on the plain text's head --- *)
@@ -200,7 +200,7 @@ Definition check_raw (input output : J) : verdict :=
       match reader_of rz, jbytes jname, dec_origin jorigin with
       | Some r, Some name, Some org =>
           match output with
-          | JL [jh; jro; jref] =>
+          | JL [_; jh; jro; jref] =>
               match jbytes jh, dec_outc jro, dec_outc jref with
               | Some h, Some ro, Some ev =>
                   (* ev = harness-side reference: a plain parse of the file content;
